@@ -34,6 +34,29 @@ func main() {
 		cmdDump(os.Args[2:])
 	case "funcs":
 		cmdFuncs(os.Args[2:])
+	case "freeze":
+		// prints the current parameter / captured-variable names of all nexus functions (input of internal/props/frozen_names.json)
+		p, err := ir.Load("/repo")
+		if err != nil {
+			fmt.Fprintln(os.Stderr, err)
+			os.Exit(1)
+		}
+		out := map[string]ir.CanonNames{}
+		for _, fn := range p.NexusFuncs {
+			var cn ir.CanonNames
+			for _, q := range fn.Params {
+				cn.Params = append(cn.Params, q.Name())
+			}
+			for _, q := range fn.FreeVars {
+				cn.FreeVars = append(cn.FreeVars, q.Name())
+			}
+			for _, a := range ir.NamedLocals(fn) {
+				cn.Locals = append(cn.Locals, a.Comment)
+			}
+			out[ir.ShortName(fn)] = cn
+		}
+		b, _ := json.MarshalIndent(out, "", " ")
+		fmt.Println(string(b))
 	case "describe":
 		out := map[string]map[string]string{}
 		for _, id := range props.IDs() {
